@@ -180,7 +180,8 @@ def r2_slots(ctx, sgn, qfn):
         # weight: 1000 without ';' else payload of the qvalue parser
         semi = None
         for t, v in o.cons.variant.items():
-            if isinstance(t, tuple) and t[0] == "call" and t[1].endswith("split_once"):
+            if isinstance(t, tuple) and ((t[0] == "call" and t[1].endswith("split_once")) or
+                                         (t[0] == "found" and len(t) > 4 and t[4] == "str::split_once" and t[2] == const(59))):
                 semi = v
         if semi == "None":
             if q != const(1000):
